@@ -10,7 +10,7 @@ from pathlib import Path
 from . import tlc
 from .common import CACHE, REPO, Check, seed, workers
 
-ALPHABETS = {"markup": "Markup", "expr": "Expr", "markup-small": "MarkupSmall", "expr-small": "ExprSmall", "markup-breaks": "MarkupBreaks", "expr-rt": "ExprRT"}
+ALPHABETS = {"markup": "Markup", "expr": "Expr", "markup-small": "MarkupSmall", "expr-small": "ExprSmall", "markup-breaks": "MarkupBreaks", "expr-rt": "ExprRT", "html": "Html", "expr-big": "ExprBig"}
 
 
 def enumerate_sources(chk: Check, focus: str, alphabet: str, maxlen: int, prefix: str = "", suffix: str = "",
